@@ -18,10 +18,14 @@ RULE = ("real Router with recording devices (one of them a real generated Driver
         "distinct = hash(model state [and path, when reached by a non-shortest path], operation)")
 ASSUMPTIONS = ["which clients the getProperties relay reaches is decided by C05",
                "enableBLOB from an unregistered sender is outside the quantifier"]
-REQUIRED_EVENTS = ["states", "transitions", "client_originated_messages", "deliveries_observed", "reentrant_operations", "reentrant_sends_from_inside_a_delivery"]
+REQUIRED_EVENTS = ["histories_over_padded_and_case_variant_names", "states", "transitions", "client_originated_messages", "deliveries_observed", "reentrant_operations", "reentrant_sends_from_inside_a_delivery"]
 EXHAUSTIVE_NOTE = "quick: universe 2 devices (A, real driver B) + catch-all x 2 clients, complete; thorough: 3 devices x 3 clients, complete"
 QUICK_SHARDS = 4
 JUDGE = "client"
+
+
+EDGE_DEVICES = ["Cam", "Cam ", " Cam", "cam", "Cam 2", "*"]
+EDGE_REAL = ("Cam ", "cam")
 
 
 def universes(ctx):
@@ -43,6 +47,13 @@ def run(ctx):
     for i in range(nh):
         if ctx.mine(i):
             X.reactive_history(ctx, big, JUDGE, i)
+    # device names at the edge of what a name can be: the same word padded with white space, in another case, with inner blanks -
+    # each is a device of its own, and a message goes to the one that accepts exactly the name it carries
+    edge = X.Universe(EDGE_DEVICES, ["c0", "c1", "c2"], real_drivers=EDGE_REAL)
+    for i in range(nh // 3):
+        if ctx.mine(i):
+            X.random_history(ctx, edge, JUDGE, 100000 + i, 40)
+            ctx.count("histories_over_padded_and_case_variant_names")
 
 
 def exhaustive(ctx):
@@ -51,7 +62,7 @@ def exhaustive(ctx):
 
 def replay(ctx, case):
     devs, clis = case["uni"] if "uni" in case else (["A", "B", "*"], ["c0", "c1", "c2"])
-    real = ("B",) if "B" in devs else ("D1", "D3")
+    real = ("B",) if "B" in devs else EDGE_REAL if "Cam " in devs else ("D1", "D3")
     uni = X.Universe(devs, clis, real_drivers=real)
     if case.get("mode") == "reactive":
         X.reactive_history(ctx, uni, JUDGE, case["i"])
